@@ -190,6 +190,9 @@ impl BlteBuilder {
             super::error::BlteError::CompressionError("No encryption config set".to_string())
         })?;
 
+        // The chunk table records the size of the fully decoded content, not
+        // of the inner payload (which carries a mode byte and may be compressed)
+        let decompressed_size = data.len();
         let inner = self.build_inner_payload(data)?;
 
         // Encrypt the payload (mode byte + compressed/raw data)
@@ -199,7 +202,7 @@ impl BlteBuilder {
         Ok(ChunkData::from_compressed(
             CompressionMode::Encrypted,
             encrypted_data,
-            Some(inner.len()),
+            Some(decompressed_size),
         ))
     }
 
